@@ -536,7 +536,11 @@ def r_tight(ctx, rep):
         ok_idx = lit_value(n["args"][0]) == 0
         ok_row = False
         ok_val = False
-        for s in walk_k(n["args"][1], "Struct"):
+        from .kit import let_init as _li
+        arg1 = n["args"][1]
+        if _li(fn.body, arg1) is not None:          # `let header_cell = Cell { .. }; cells.insert(0, header_cell)`
+            arg1 = _li(fn.body, arg1)["init"]
+        for s in walk_k(arg1, "Struct"):
             for f in s["fields"]:
                 if f["name"] == "pos":
                     t = unwrap(f["e"])
@@ -644,6 +648,12 @@ def r_ws(ctx, rep):
     for fn in fns:
         key = "%s|R-WS" % fn.name
         calls = [c for c in walk_k(fn.body, "MethodCall") if c["name"] == "worksheet_range" and path_local(c["recv"]) and path_local(c["recv"])[0] == "self"]
+        # a name and its range travel together: pairing a list of names with a separately built list of ranges by position
+        # goes wrong as soon as one of the two skips an entry (a sheet that cannot be read) or is ordered differently
+        early_zip = [z for z in walk_k(fn.body, "MethodCall") if z["name"] == "zip" and z.get("args")]
+        if calls and early_zip:
+            rep.violation("R-WS", key + "|zip", loc(early_zip[0]), "%s builds names and ranges separately and pairs them by position: a sheet whose range cannot be read (a chart sheet) leaves the ranges but not the names, and every later name gets the next sheet's cells" % fn.name)
+            continue
         if calls:
             rep.holds("R-WS", key, loc(calls[0]), "every entry is produced by self.worksheet_range(name)")
             continue
